@@ -28,7 +28,18 @@ ReqL(t, mt, soft, hard) ==
 
 MM(i, rule, detail) == PrintT("MM " \o ToJson([l |-> i, t |-> 0, rule |-> rule, class |-> "", detail |-> detail]))
 
-Judge(i) ==
+(* A deadline probe: a search that only ends when the driver closes its stop  *)
+(* channel, started by `go wtime ...` (or go ponder ... ponderhit), while the *)
+(* GUI keeps sending harmless lines.  In Uci.tla the timer is armed once, at  *)
+(* go / ponderhit (timerArmed), and no other input line touches it; so the    *)
+(* search must have been aborted by the timer - not by the `stop` the probe   *)
+(* sends after hard + slack.  One-sided: nothing is asserted about how early. *)
+JudgeDl(i) ==
+  LET d == Trace[i].dl IN
+  IF d.byTimer /\ d.after <= d.hard + d.slack THEN TRUE
+  ELSE MM(i, "C14/deadline-not-enforced-while-input-arrives", [dl |-> d])
+
+JudgeClock(i) ==
   LET ev == Trace[i]
       own == IF ev.stm = 0 THEN ev.w ELSE ev.b
       inc == IF ev.stm = 0 THEN ev.wi ELSE ev.bi
@@ -46,6 +57,8 @@ Judge(i) ==
         ELSE MM(i, "C14/depends-on-opponent-clock", [ev |-> ev, k |-> k])
   \* through the driver: the soft time the search received equals the soft target
   /\ IF "drv" \in DOMAIN ev THEN (IF EQ(ev.drv, ev.soft) THEN TRUE ELSE MM(i, "C14/driver-soft-time", [ev |-> ev])) ELSE TRUE
+
+Judge(i) == IF "dl" \in DOMAIN Trace[i] THEN JudgeDl(i) ELSE JudgeClock(i)
 
 TInit == l = 1
 TNext == /\ l <= Len(Trace)
